@@ -644,6 +644,10 @@ pub fn replay(args: &Args) {
                 };
                 n += 1;
                 now += if n % 64 == 0 { 3000 } else { 1 };
+                if stage == "frag-grammar" && n % 2 == 1 {
+                    // each pair of fragments finds the reassembly slots free again (they are kept for 60 s)
+                    now += 61_000;
+                }
                 if let Ok(mut g) = cur.lock() {
                     *g = json!({"k":k,"s":row,"frame":fi,"off":off,"hex":hex(&m)}).to_string();
                 }
@@ -830,6 +834,19 @@ fn grammar_frames(med: Med, stage: &str, kind: &str, corpus: &[Cap], seed: u64, 
             let sizes = [0u16, 1, 39, 40, 48, 100, 1280, 1499, 1500, 1501, 2047];
             let offs = [0u8, 1, 5, 6, 12, 160, 187, 188, 255];
             let lens = [0usize, 1, 7, 8, 40, 96];
+            if kind == "pairs" {
+                // FRAG1 carrying the real compressed datagram whole, announcing every size around its true one (first:
+                // a reassembly buffer that grows on demand is as short as the largest size announced so far)
+                for sz in 40..(56 + inner.len() as u16) {
+                    let mut f1 = mac.clone();
+                    f1.extend_from_slice(&(0xc000u16 | sz).to_be_bytes());
+                    f1.extend_from_slice(&(0x4000u16 + sz).to_be_bytes());
+                    f1.extend_from_slice(&inner);
+                    // (twice: a FRAG1 that is refused keeps the reassembly slot, so of each two frames one finds it free)
+                    out.push(f1.clone());
+                    out.push(f1);
+                }
+            }
             for &sz in &sizes {
                 for &tag in &[0x0000u16, 0xffff] {
                     // FRAG1 carrying the real compressed head, then FRAGN at each offset / length
